@@ -135,6 +135,20 @@ class _Continue(Exception):
 
 
 @dataclass(eq=False)
+class _Getter:
+    key: Any
+    item: bool
+    multi: bool = False
+
+
+@dataclass(eq=False)
+class Partial:
+    func: Any
+    args: tuple
+    kwargs: dict
+
+
+@dataclass(eq=False)
 class _Const:
     v: Any
 
@@ -601,7 +615,16 @@ class Interp:
         if isinstance(target, (ast.Tuple, ast.List)):
             vals = self.iterate(v, target, fr) if not isinstance(v, (tuple, list)) else list(v)
             if any(isinstance(e, ast.Starred) for e in target.elts):
-                raise self.err(target, "starred assignment not supported")
+                k = next(i for i, e in enumerate(target.elts) if isinstance(e, ast.Starred))
+                after = len(target.elts) - k - 1
+                if len(vals) < len(target.elts) - 1:
+                    raise Raised("ValueError", target, fr.fi, "not enough values to unpack")
+                for e, x in zip(target.elts[:k], vals[:k]):
+                    self.assign(e, x, fr)
+                self.assign(target.elts[k].value, list(vals[k:len(vals) - after]), fr)
+                for e, x in zip(target.elts[k + 1:], vals[len(vals) - after:] if after else []):
+                    self.assign(e, x, fr)
+                return
             if len(vals) != len(target.elts):
                 raise Raised("ValueError", target, fr.fi, "unpacking length mismatch")
             for e, x in zip(target.elts, vals):
@@ -827,7 +850,7 @@ class Interp:
                 v = mi.assigns[name]
                 if isinstance(v, ast.Constant):
                     return v.value
-                return Builtin(f"<module-object {name}>")
+                return self.eval_module_assign(mi, name, v, node)
             if name in mi.imports:
                 full = mi.imports[name]
                 tgt = self.prog.resolve_name(mi, name)
@@ -845,12 +868,36 @@ class Interp:
                     v = self.prog.modules[modname].assigns[obj]
                     if isinstance(v, ast.Constant):
                         return v.value
+                    return self.eval_module_assign(self.prog.modules[modname], obj, v, node)
                 if full in self.prog.modules:
                     return ExtMod(full)
                 return ExtMod(full)
         if name in PY_BUILTINS:
             return Builtin(name)
         raise self.err(node, f"unbound name {name}")
+
+    def eval_module_assign(self, mi, name, v, node):
+        """module-level `X = <expr>` (dispatch tables, getters, tuples of names, TypeVars)"""
+        key = (mi.name, name)
+        memo = self.__dict__.setdefault("_modvals", {})
+        if key in memo:
+            return memo[key]
+        if isinstance(v, ast.Call) and (dotted_name(v.func) or "").split(".")[-1] in ("TypeVar", "NewType", "getLogger"):
+            memo[key] = Builtin(f"<module-object {name}>")
+            return memo[key]
+        from .front import FunctionInfo
+
+        pseudo = FunctionInfo(mi.name, "<module>", ast.parse("def _m(): pass").body[0])
+        fr = Frame(pseudo, {})
+        self.stack.append(fr)
+        try:
+            val = self.eval(v, fr)
+        except AnalysisError:
+            val = Builtin(f"<module-object {name}>")
+        finally:
+            self.stack.pop()
+        memo[key] = val
+        return val
 
     def e_Tuple(self, n, fr):
         return tuple(self._elts(n.elts, fr))
@@ -890,7 +937,10 @@ class Interp:
         return d
 
     def e_Set(self, n, fr):
-        return frozenset(self._elts(n.elts, fr))
+        return set(self._elts(n.elts, fr))
+
+    def e_SetComp(self, n, fr):
+        return set(self._comp(n, fr, lambda f: self.eval(n.elt, f)))
 
     def e_JoinedStr(self, n, fr):
         parts = []
@@ -912,10 +962,18 @@ class Interp:
             # value selected by a symbolic condition: numpy evaluates the python truth
             # value of the array (defined only for size-1 values); casadi's counterpart
             # is if_else.
+            va, vb = self.eval(n.body, fr), self.eval(n.orelse, fr)
+            numeric = lambda x: isinstance(x, TV) or (isinstance(x, (int, float)) and not isinstance(x, bool))  # noqa: E731
+            if not (numeric(va) and numeric(vb)):
+                # e.g. `None if x == 0 else x`: a python-level decision, explored both ways
+                d = self.world.decide(self, c, n.test) if self.world is not None else None
+                if d is None:
+                    raise self.err(n, "conditional expression on a symbolic value with non-numeric branches")
+                return va if d else vb
             self.event("symbolic-ifexp", n, f"conditional expression on `{short(n.test, 50)}`",
                        data={"rank": c.rank, "shape_scalar": self._is_scalar(c)})
-            a = self.to_tv(self.eval(n.body, fr), n)
-            b = self.to_tv(self.eval(n.orelse, fr), n)
+            a = self.to_tv(va, n)
+            b = self.to_tv(vb, n)
             return TV(("ite", c.t, a.t, b.t), max(a.rank or 0, b.rank or 0))
         return self.eval(n.body if self.truth(c, n.test, fr) else n.orelse, fr)
 
@@ -1042,10 +1100,20 @@ class Interp:
         return res
 
     def compare(self, op, a, b, node, fr):
-        if isinstance(op, ast.Is):
-            return a is b or (a is None and b is None)
-        if isinstance(op, ast.IsNot):
-            return not (a is b or (a is None and b is None))
+        if isinstance(op, (ast.Is, ast.IsNot)):
+            same = a is b or (a is None and b is None)
+            if not same:
+                if isinstance(a, ClassV) and isinstance(b, ClassV):
+                    same = a.fq == b.fq
+                elif isinstance(a, Builtin) and isinstance(b, Builtin):
+                    same = a.name == b.name
+                elif isinstance(a, ExtMod) and isinstance(b, ExtMod):
+                    same = a.name == b.name
+                elif isinstance(a, FuncV) and isinstance(b, FuncV):
+                    same = a.fi is b.fi and a.self_obj is b.self_obj
+                elif isinstance(a, bool) and isinstance(b, bool):
+                    same = a == b
+            return same if isinstance(op, ast.Is) else not same
         if isinstance(op, (ast.In, ast.NotIn)):
             r = self.contains(b, a, node, fr)
             return r if isinstance(op, ast.In) else not r
@@ -1068,6 +1136,8 @@ class Interp:
             if name is None:
                 raise self.err(node, "unsupported symbolic comparison")
             return TV(("cmp", name, ta.t, tb.t), max(ta.rank or 0, tb.rank or 0))
+        if isinstance(a, ClassV) and isinstance(b, ClassV) and isinstance(op, (ast.Eq, ast.NotEq)):
+            return (a.fq == b.fq) == isinstance(op, ast.Eq)
         try:
             if isinstance(op, ast.Eq):
                 return a == b
@@ -1149,6 +1219,8 @@ class Interp:
             if m is not None:
                 if m.is_property():
                     return self.call_function(FuncV(m, o, defcls=m.cls), [], {}, node)
+                if _is_classmethod(m):
+                    return FuncV(m, ClassV(o.cls), defcls=m.cls)
                 return FuncV(m, None if m.is_static() else o, defcls=m.cls)
             ca, owner = self.prog.lookup_class_attr(o.cls, attr) if o.cls in self.prog.classes else (None, None)
             if ca is not None:
@@ -1165,6 +1237,8 @@ class Interp:
                         return self.class_overlay[(c, attr)]
             m = self.prog.lookup_method(o.fq, attr)
             if m is not None:
+                if _is_classmethod(m):
+                    return FuncV(m, ClassV(o.fq, via=o.via), via=o.via, defcls=m.cls)
                 return FuncV(m, None, via=o.via, defcls=m.cls)
             ca, owner = self.prog.lookup_class_attr(o.fq, attr)
             if ca is not None:
@@ -1182,6 +1256,12 @@ class Interp:
                 r = self.world.module_attr(self, o.name, attr, node)
                 if r is not NotImplemented:
                     return r
+            if o.name == "math" and attr in ("inf", "pi", "e"):
+                import math as _m
+
+                return getattr(_m, attr)
+            if o.name in ("numpy", "casadi") and attr == "inf":
+                return float("inf")
             tgt = self.prog._resolve_dotted(o.name + "." + attr, set())
             if tgt is not None:
                 if tgt in self.prog.classes:
@@ -1209,8 +1289,12 @@ class Interp:
             if attr in ("get", "items", "keys", "values", "update", "pop", "setdefault", "copy", "clear"):
                 return BoundDictMethod(o, attr)
         if isinstance(o, list):
-            if attr in ("append", "extend", "insert", "pop"):
+            if attr in ("append", "extend", "insert", "pop", "index", "count", "copy", "reverse", "sort", "clear", "remove"):
                 return BoundListMethod(o, attr)
+        if isinstance(o, (set, frozenset)):
+            if attr in ("add", "discard", "remove", "update", "union", "intersection", "difference", "copy",
+                        "issubset", "issuperset", "clear", "pop"):
+                return BoundSetMethod(o, attr)
         if isinstance(o, str):
             if attr in ("format", "join", "startswith", "endswith", "lower", "upper"):
                 return BoundStrMethod(o, attr)
@@ -1411,23 +1495,70 @@ class Interp:
             return self.call_closure(f, args, kwargs, n)
         if isinstance(f, _Const):
             return f.v
+        if isinstance(f, _Getter):
+            def one(k):
+                if f.item:
+                    c = args[0]
+                    if isinstance(c, (list, tuple, dict, str)):
+                        return c[k]
+                    raise self.err(n, "itemgetter on an unsupported value")
+                cur = args[0]
+                for part in str(k).split("."):
+                    cur = self.getattr(cur, part, n, fr)
+                return cur
+            if f.multi:
+                return tuple(one(k) for k in f.key)
+            return one(f.key)
         if isinstance(f, Builtin):
             return self.call_builtin(f.name, args, kwargs, n, fr)
         if isinstance(f, ExtMod):
             return self.call_ext(f.name, args, kwargs, n, fr)
-        if isinstance(f, (BoundDictMethod, BoundListMethod, BoundStrMethod)):
+        if isinstance(f, (BoundDictMethod, BoundListMethod, BoundStrMethod, BoundSetMethod)):
             return f.call(self, args, kwargs, n, fr)
         if isinstance(f, ClassV):
             if self.world is not None:
                 r = self.world.construct(self, f, args, kwargs, n)
                 if r is not NotImplemented:
                     return r
+            if f.fq in self.prog.classes:
+                return self.construct_generic(f, args, kwargs, n)
             raise self.err(n, f"construction of {f.fq} is not modelled")
+        if isinstance(f, Partial):
+            return self.call(f.func, list(f.args) + list(args), {**f.kwargs, **kwargs}, n, fr)
         if self.world is not None:
             r = self.world.call_value(self, f, args, kwargs, n)
             if r is not NotImplemented:
                 return r
         raise self.err(n, f"call of {type(f).__name__}")
+
+    def construct_generic(self, cv: ClassV, args, kwargs, node):
+        """instantiate a (helper) class of the repository: run its __init__, or fill the
+        fields of a @dataclass in declaration order"""
+        ci = self.prog.classes[cv.fq]
+        o = Obj(cv.fq, f"<{ci.name}>", kind="helper")
+        init = self.prog.lookup_method(cv.fq, "__init__")
+        if init is not None:
+            self.call_function(FuncV(init, o, defcls=init.cls), list(args), dict(kwargs), node)
+            return o
+        is_dc = any((dotted_name(d.func if isinstance(d, ast.Call) else d) or "").split(".")[-1] == "dataclass"
+                    for d in ci.node.decorator_list)
+        fields = [b for b in ci.node.body if isinstance(b, ast.AnnAssign) and isinstance(b.target, ast.Name)]
+        if is_dc or (fields and (args or kwargs)):
+            names = [b.target.id for b in fields]
+            vals = dict(zip(names, args))
+            vals.update(kwargs)
+            fr0 = Frame(None, {})
+            for b in fields:
+                if b.target.id not in vals:
+                    if b.value is None:
+                        raise Raised("TypeError", node, self.stack[-1].fi if self.stack else None,
+                                     f"missing field {b.target.id}")
+                    vals[b.target.id] = self.eval(b.value, fr0)
+            o.attrs.update(vals)
+            return o
+        if args or kwargs:
+            raise Raised("TypeError", node, self.stack[-1].fi if self.stack else None, "object() takes no arguments")
+        return o
 
     def call_closure(self, c: Closure, args, kwargs, node):
         fv = FuncV(c.fi, None)
@@ -1589,8 +1720,45 @@ class Interp:
                 self.world.on_new_container(self, d, n)
             return d
         if name == "zip":
+            if args and all(isinstance(a, FamItem) for a in args):
+                # zip(*[(a(mu), b(mu)) for mu in family]) -> (family of a, family of b)
+                if len(args) == 1 and isinstance(args[0].term, (tuple, list)):
+                    return [FamList([FamItem(args[0].domain, comp)]) for comp in args[0].term]
+                raise self.err(n, "zip over several abstract family items")
             its = [self.iterate(a, n, fr) for a in args]
+            if len(its) == 1 and len(its[0]) == 1 and isinstance(its[0][0], FamItem) and isinstance(its[0][0].term, (tuple, list)):
+                # zip(*[(a(mu), b(mu)) for mu in family]) -> (family of a, family of b)
+                fi_ = its[0][0]
+                return [FamList([FamItem(fi_.domain, comp)]) for comp in fi_.term]
+            if any(isinstance(x, FamItem) for seq in its for x in seq):
+                if all(len(seq) == 1 and isinstance(seq[0], FamItem) for seq in its) and len({seq[0].domain for seq in its}) == 1:
+                    return FamList([FamItem(its[0][0].domain, tuple(seq[0].term for seq in its))])
+                raise self.err(n, "zip mixing abstract families and concrete items")
             return list(zip(*its))
+        if name == "map":
+            if len(args) == 2:
+                src = self._abstract_iter(args[1], n)
+                if isinstance(src, Coll) and src.card == "many":
+                    return FamList([FamItem(src.domain, self.call(args[0], [src.members[0]], {}, n, fr))])
+                items = self.iterate(src, n, fr)
+                out = []
+                fam = False
+                for x in items:
+                    if isinstance(x, FamItem):
+                        fam = True
+                        out.append(FamItem(x.domain, self.call(args[0], [x.term], {}, n, fr)))
+                    else:
+                        out.append(self.call(args[0], [x], {}, n, fr))
+                return FamList(out) if fam else out
+            its = [self.iterate(a, n, fr) for a in args[1:]]
+            return [self.call(args[0], list(xs), {}, n, fr) for xs in zip(*its)]
+        if name == "filter":
+            items = self.iterate(args[1], n, fr)
+            if args[0] is None:
+                return [x for x in items if self.truth(x, n, fr)]
+            return [x for x in items if self.truth(self.call(args[0], [x], {}, n, fr), n, fr)]
+        if name == "callable":
+            return isinstance(args[0], (FuncV, Closure, Builtin, ClassV, Partial))
         if name == "enumerate":
             return list(enumerate(self.iterate(args[0], n, fr)))
         if name == "range":
@@ -1639,7 +1807,9 @@ class Interp:
             return id(args[0])
         if name == "print":
             return None
-        if name == "set" or name == "frozenset":
+        if name == "set":
+            return set(self.iterate(args[0], n, fr)) if args else set()
+        if name == "frozenset":
             return frozenset(self.iterate(args[0], n, fr)) if args else frozenset()
         raise self.err(n, f"builtin {name} is not modelled")
 
@@ -1658,6 +1828,9 @@ class Interp:
                 r = self.world.call_ext(self, name, args, kwargs, n)
                 if r is not NotImplemented:
                     return r
+            r = self.call_stdlib(name, args, kwargs, n, fr)
+            if r is not NotImplemented:
+                return r
             raise self.err(n, f"library call {name} is not in the alias table")
         out_target = None
         if kwargs:
@@ -1741,6 +1914,77 @@ class Interp:
             return self.vcat(args, n, fr)
         raise self.err(n, f"alias {canon} not handled")
 
+    def call_stdlib(self, name, args, kwargs, n, fr):
+        import math as _math
+
+        if name == "functools.partial":
+            return Partial(args[0], tuple(args[1:]), dict(kwargs))
+        if name == "functools.reduce":
+            items = self.iterate(args[1], n, fr)
+            acc = args[2] if len(args) > 2 else items.pop(0)
+            for x in items:
+                acc = self.call(args[0], [acc, x], {}, n, fr)
+            return acc
+        if name.startswith("operator."):
+            op = {"add": ast.Add(), "sub": ast.Sub(), "mul": ast.Mult(), "truediv": ast.Div(), "pow": ast.Pow()}.get(
+                name.split(".")[1])
+            if op is not None:
+                return self.binop(op, args[0], args[1], n)
+            if name == "operator.neg":
+                x = self.to_tv(args[0], n)
+                return TV(E.neg(x.t), x.rank)
+            if name in ("operator.itemgetter", "operator.attrgetter"):
+                key = args[0] if len(args) == 1 else tuple(args)
+                return _Getter(key, name.endswith("itemgetter"), multi=len(args) > 1)
+        if name == "itertools.chain":
+            out = []
+            for a in args:
+                out.extend(self.star_items(a, n, fr))
+            return out
+        if name == "itertools.chain.from_iterable":
+            out = []
+            for a in self.iterate(args[0], n, fr):
+                out.extend(self.star_items(a, n, fr))
+            return out
+        if name == "itertools.product":
+            import itertools as _it
+
+            return list(_it.product(*[self.star_items(a, n, fr) for a in args]))
+        if name == "itertools.cycle":
+            items = self.iterate(args[0], n, fr)
+            return IterV(items * 64)
+        if name == "itertools.count":
+            start = args[0] if args else 0
+            return IterV(list(range(start, start + 256)))
+        if name == "itertools.repeat" and len(args) == 2 and isinstance(args[1], int):
+            return [args[0]] * args[1]
+        if name == "itertools.islice" and all(isinstance(a, int) or a is None for a in args[1:]):
+            import itertools as _it
+
+            return list(_it.islice(self.iterate(args[0], n, fr), *args[1:]))
+        if name.startswith("math.") and all(isinstance(a, (int, float)) and not isinstance(a, bool) for a in args):
+            f = getattr(_math, name.split(".")[1], None)
+            if callable(f):
+                return f(*args)
+        if name in ("math.inf",):
+            return float("inf")
+        if name in ("typing.cast",):
+            return args[1]
+        if name == "copy.copy" or name == "copy.deepcopy":
+            v = args[0]
+            if isinstance(v, dict):
+                c = dict(v)
+                if self.world is not None:
+                    self.world.on_new_container(self, c, n)
+                return c
+            if isinstance(v, list):
+                return list(v)
+            if isinstance(v, TV):
+                return TV(v.t, v.rank, True, "")
+        if name in ("warnings.warn",):
+            return None
+        return NotImplemented
+
     def _sum(self, v, n):
         x = self.to_tv(v, n)
         if x.rank == 0 and self.lib == "numpy":
@@ -1766,6 +2010,10 @@ class Interp:
         out = TV(("vcat", tuple(terms)), 1)
         self.check_shape(out, n)
         return out
+
+
+def _is_classmethod(m) -> bool:
+    return any((dotted_name(d) or "") == "classmethod" for d in m.node.decorator_list)
 
 
 def _has_yield(fn) -> bool:
@@ -1840,7 +2088,39 @@ class BoundListMethod:
             return None
         if self.name == "pop":
             return self.l.pop(*args)
+        if self.name in ("index", "count", "copy", "reverse", "clear", "remove"):
+            try:
+                return getattr(self.l, self.name)(*args)
+            except ValueError:
+                raise Raised("ValueError", n, fr.fi, "not in list")
+        if self.name == "sort":
+            it.event("reorder", n, "list.sort() applied in analysed code")
+            if all(isinstance(x, (int, float, str)) for x in self.l) and not kwargs:
+                self.l.sort()
+                return None
+            raise it.err(n, "list.sort over abstract values")
         raise it.err(n, f"list.{self.name}")
+
+
+@dataclass(eq=False)
+class BoundSetMethod:
+    s: Any
+    name: str
+
+    def call(self, it: Interp, args, kwargs, n, fr):
+        if self.name in ("add", "discard", "remove", "update", "clear", "pop") and isinstance(self.s, frozenset):
+            raise Raised("AttributeError", n, fr.fi, f"frozenset has no {self.name}")
+        if self.name == "update":
+            for a in args:
+                self.s.update(it.iterate(a, n, fr))
+            return None
+        if self.name in ("union", "intersection", "difference", "issubset", "issuperset"):
+            other = [set(it.iterate(a, n, fr)) for a in args]
+            return getattr(self.s, self.name)(*other)
+        try:
+            return getattr(self.s, self.name)(*args)
+        except KeyError:
+            raise Raised("KeyError", n, fr.fi, repr(args[:1]))
 
 
 @dataclass(eq=False)
@@ -1860,5 +2140,5 @@ PY_BUILTINS = {
     "len", "any", "all", "isinstance", "iter", "next", "hasattr", "getattr", "list",
     "tuple", "dict", "zip", "enumerate", "range", "float", "int", "bool", "abs", "round",
     "max", "min", "sum", "sorted", "reversed", "type", "str", "id", "print", "set",
-    "frozenset", "super",
+    "frozenset", "super", "map", "filter", "callable",
 }
